@@ -327,3 +327,20 @@ PROPS["C12"] = {
         lane("TestRules", "rules", 600, 3000, shards=16, must_classes=["both-verdicts", "kind:integer:INT32", "kind:enum", "kind:array:string"]),
     ],
 }
+
+PROPS["C04"] = {
+    "pkg": "c04",
+    "level": "exploration",
+    "technique": "property-based testing (rapid) with a model-first j5s generator; reference-model oracle: the expected J5 schema of every declared type is derived from the model and compared, in a semantic normal form, with the schema reflected from the compiled descriptors and from the printed .proto text",
+    "level_text": ("Generated bundles carry every rule and annotation the generator can express (string/bytes lengths, patterns, integer bounds and both exclusivity "
+                   "flags, bool const, date/decimal bounds, array and map rules, enum in/not-in, key formats incl. custom patterns, flatten, list rules, descriptions, "
+                   "required / optional). For every object, oneof and enum (inline, nested and generated request/response/message types included) the expected schema is "
+                   "flattened into path=value lines and compared both ways with RootSchema.ToJ5Root() of SchemaSetFromFiles over (a) the compiled descriptors and (b) the "
+                   "descriptors re-parsed from the printed .proto text. Each differing path class is its own finding key."),
+    "level_note": "Normal form: empty rule messages = absent, exclusive_*/unique_items=false = unset, informal key = key without format, map key schema ignored. Entities are not in this model. The three well-known string patterns the reader turns into formats are not in the pattern pool.",
+    "rule": ("readback: j5sgen.Draw (<=2 packages x <=2 files). Non-trivial: at least one rule, list rule, key format, flatten or description is present. Distinct by hash of the sources."),
+    "assumptions": ["nested / inline types are named <Parent>_<Child> in the schema set (the reader's convention for nested messages)"],
+    "lanes": [
+        lane("TestReadback", "readback", 300, 1500, shards=16, must_classes=["rules:string", "rules:integer", "rules:array", "list:string", "key:custom", "flatten", "description"]),
+    ],
+}
